@@ -99,6 +99,12 @@ prop('C09', 'model_checking', 'explicit-state BFS over histories of file operati
      'every distinct final image must pass e2fsck -fn and the independent checker (i_blocks, bitmaps).',
      'depth-bounded (quick: depth 2, depth 3 from states that end in a shrinking operation; thorough: depth 3); after an operation that fails with an error other than no-space the affected file is no longer compared. Known findings: three defects of the inline-data paths. Two defects (fallocate gap filling, indirect punch) were repaired.', '4/C09')
 
+prop('C15', 'model_checking', 'explicit-state BFS over histories of xattr set/replace/remove operations on the real libext2fs (in-process harness, states de-duplicated on the image hash), map reference model checked after every operation, independent checker on distinct states',
+     'Breadth-first search to depth 2 (thorough 3) over set/remove operations for 7 names (user, a 250-byte name, trusted, security, POSIX ACL) x value lengths placed around the in-inode and in-block capacities of each configuration and beyond one block (ea_inode), two sets through one handle and filesystem reopen, '
+     'on a regular file, a directory and an inline-data file; inode sizes 128/256/1024, ea_inode, metadata_csum, inline_data, 1k and 4k blocks. After every operation ext2fs_xattrs_iterate and ext2fs_xattr_get of all three inodes must equal the model map; every distinct final image must pass e2fsck -fn and the independent checker '
+     '(entry order, hashes, reference counts, ea_inode references, block and inode accounting, i.e. no leak and no double free).',
+     'depth-bounded; quick uses 5 configurations and a reduced second level. Known finding: value-inode blocks are not charged to the owner\'s i_blocks. One defect (values above 64 KiB accepted but unreadable) was repaired.', '4/C15')
+
 def main():
     props = [json.loads(l) for l in open(os.path.join(V, 'properties.jsonl'))]
     checks, na = [], []
